@@ -140,6 +140,15 @@ class C02(Prop):
                     fails.append(f"parse_column({unit!r}, {vals!r}) without a fixer gave {got!r}")
             except Exception as e:
                 fails.append(f"parse_column({unit!r}, {vals!r}) without a fixer raised {type(e).__name__}")
+        for unit, vals, want in good:
+            for how, seq in (("tuple", tuple(vals)), ("generator", (v for v in vals)),
+                             ("series with permuted labels", pd.Series(list(vals), index=list(range(len(vals)))[::-1], dtype=object))):
+                try:
+                    got = list(parse_column(unit, seq))
+                    if [T.tok(x) for x in got] != [T.tok(x) for x in want]:
+                        fails.append(f"parse_column({unit!r}, <{how}> {vals!r}) gave {got!r}")
+                except Exception as e:
+                    fails.append(f"parse_column({unit!r}, <{how}> {vals!r}) raised {type(e).__name__}")
         for unit, vals in bad:
             try:
                 got = list(parse_column(unit, vals))
